@@ -13,7 +13,10 @@ from .util import drop_candidates
 
 KEYS = [0, 1, 2, 3, 4, "a", "b", "c", "d", "e", 1.0, True]
 VALS = [0, 1, 2, 3, "x", "y", 1.0, True, (1, 2), (1, 2.0), None, "x"]
-NAMES = ["a", "b", "c", "d", "e", "f_g", "h"]
+NAMES = ["a", "b", "c", "d", "e", "f_g", "h", "pop", "copy"]
+# "pop" / "copy" collide with dict methods: the instance attribute must still
+# be the strategy.  (Names the harness itself calls - keys, key2keys,
+# value2keys, strategy, default - are not used as strategy names.)
 N_STRATS = 7
 
 
@@ -289,6 +292,15 @@ class C15(Property):
              all(isinstance(k, str) for k in src):
             d = self.core.MultiKeyDict(**src)       # keyword constructor
             probes.add("keyword-constructor")
+          elif len(op) > 2 and op[2] and src and \
+              any(isinstance(k, str) for k in src):
+            # positional source AND keywords: dict(src, **kw) semantics
+            kw = dict((k, v) for k, v in src.items() if isinstance(k, str))
+            pos = dict(pairs[:max(1, len(pairs) // 2)])
+            d = self.core.MultiKeyDict(pos, **kw)
+            src = dict(pos)
+            src.update(kw)
+            probes.add("positional-and-keyword-constructor")
           elif len(op) > 2 and op[2] and src:
             d = self.core.MultiKeyDict(list(src.items()))   # pairs
           else:
